@@ -146,6 +146,8 @@ def wfp (n me : Nat) : List Instr → Option Nat → Bool → Option (List Nat) 
   | .commitLpurge _ :: _, _, _, _, _ => false
   | .sendDownGr :: _, _, _, _, _ => false
   | .setEst _ :: r, h, f, d, sn => wfp n me r h f d sn
+  | .regShard k :: r, h, f, d, sn => decide (h = some k) && wfp n me r h f d sn
+  | .captureE0 :: r, h, f, d, sn => sn.isNone && wfp n me r h f d sn
   | .sendUp :: r, h, f, d, sn => h.isNone && d.isNone && wfp n me r h f d sn
   | .sendDown :: r, h, f, d, sn => h.isNone && sn.isNone && cover n (d.getD []) && wfp n me r h f none sn
   | .setPol _ :: r, h, f, d, sn => wfp n me r h f d sn
@@ -227,16 +229,16 @@ theorem lockFree_spec {st : St} {k me : Nat} (hI : Inv st) (h : lockFree st k me
 
 /-- A step of thread `me` that touches no shared data except the policy, and in the thread only
     pgm / subs / pol / held / fresh / dirty / count / rets. -/
-theorem inv_core {st : St} {me : Nat} {t' : Thread} {p : Pol} {E : List Nat} (hI : Inv st)
+theorem inv_core {st : St} {me : Nat} {t' : Thread} {p : Pol} {E : List Nat} {A : List (Nat × Nat)} (hI : Inv st)
     (hme : me < st.nthreads)
     (hd : t'.drop = (st.threads me).drop) (hsn : t'.snapping = (st.threads me).snapping)
-    (hms : t'.mysubs = (st.threads me).mysubs)
+    (hms : ∀ r' ∈ t'.mysubs, ∃ r ∈ (st.threads me).mysubs, r.sid = r'.sid ∧ r.want = r'.want)
     (hwf : TWF st.n me t')
     (hheld : ∀ k, t'.held = some k → k < st.n ∧ ∀ j, j ≠ me → (st.threads j).held ≠ some k)
     (hsubs : ∀ s ∈ t'.subs, s < st.nextSub)
     (hblind : ∀ s k, t'.held = some k → t'.fresh = true → s ∈ st.subscribers → s ∉ t'.subs →
         k ∉ st.done s ∧ ∀ m key, key.shard = k → ¬ touched m key (st.queues s)) :
-    Inv { st with policy := p, established := E, threads := updT st.threads me t' } := by
+    Inv { st with policy := p, established := E, addpath := A, threads := updT st.threads me t' } := by
   have hdrop : ∀ i, (updT st.threads me t' i).drop = (st.threads i).drop := by
     intro i; by_cases h : i = me
     · subst h; simp [hd]
@@ -245,11 +247,11 @@ theorem inv_core {st : St} {me : Nat} {t' : Thread} {p : Pol} {E : List Nat} (hI
     intro i; by_cases h : i = me
     · subst h; simp [hsn]
     · simp [updT_ne _ _ h]
-  have hmys : ∀ i, (updT st.threads me t' i).mysubs = (st.threads i).mysubs := by
-    intro i; by_cases h : i = me
-    · subst h; simp [hms]
-    · simp [updT_ne _ _ h]
-  have hds : ∀ key, droppedShard { st with policy := p, established := E, threads := updT st.threads me t' } key ↔ droppedShard st key := by
+  have hmys : ∀ i, ∀ r' ∈ (updT st.threads me t' i).mysubs, ∃ r ∈ (st.threads i).mysubs, r.sid = r'.sid ∧ r.want = r'.want := by
+    intro i r' hr'; by_cases h : i = me
+    · subst h; simp only [updT_self] at hr'; exact hms r' hr'
+    · simp only [updT_ne _ _ h] at hr'; exact ⟨r', hr', rfl, rfl⟩
+  have hds : ∀ key, droppedShard { st with policy := p, established := E, addpath := A, threads := updT st.threads me t' } key ↔ droppedShard st key := by
     intro key; simp [droppedShard, hdrop]
   constructor <;> dsimp only
   · intro i hi
@@ -284,8 +286,9 @@ theorem inv_core {st : St} {me : Nat} {t' : Thread} {p : Pol} {E : List Nat} (hI
   · intro i s l hs; rw [hsnap] at hs; exact hI.snapl i s l hs
   · exact hI.comp
   · intro i r hr hw
-    rw [hmys] at hr; rw [hsnap]
-    exact hI.recs i r hr hw
+    obtain ⟨r0, hr0, h1, h2⟩ := hmys i r hr
+    rw [hsnap, ← h1]
+    exact hI.recs i r0 hr0 (h2 ▸ hw)
   · exact hI.tshard
   · exact hI.nostale
   · exact hI.eosI
@@ -309,7 +312,7 @@ theorem ribV_eq (m st key) : ribV m st key = ribVr m st.rib key := by
 
 /-- A step of thread `me` under its lock that changes the table, the key list and the queues,
     and in the thread only pgm / count / rets. -/
-theorem inv_data {st : St} {me : Nat} {t' : Thread} (hI : Inv st)
+theorem inv_data {st : St} {me : Nat} {t' : Thread} {AQ : Nat → List Bool} (hI : Inv st)
     (R : Key → Option Entry) (K : List Key) (Q : Nat → List Ev)
     (hme : me < st.nthreads)
     (hsu : t'.subs = (st.threads me).subs) (hh : t'.held = (st.threads me).held)
@@ -326,7 +329,7 @@ theorem inv_data {st : St} {me : Nat} {t' : Thread} (hI : Inv st)
         s ∉ (st.threads i).subs → ∀ m key, key.shard = k → ¬ touched m key (Q s))
     (hview : ∀ s ∈ st.subscribers, ∀ m key, (touched m key (Q s) ∨ key.shard ∈ st.done s) →
         view m key (Q s) = ribVr m R key ∨ droppedShard st key) :
-    Inv { st with rib := R, keys := K, queues := Q, threads := updT st.threads me t' } := by
+    Inv { st with rib := R, keys := K, queues := Q, apq := AQ, threads := updT st.threads me t' } := by
   have hth : ∀ i, (updT st.threads me t' i).subs = (st.threads i).subs ∧
       (updT st.threads me t' i).held = (st.threads i).held ∧
       (updT st.threads me t' i).fresh = (st.threads i).fresh ∧
@@ -337,7 +340,7 @@ theorem inv_data {st : St} {me : Nat} {t' : Thread} (hI : Inv st)
     by_cases h : i = me
     · subst h; simp [*]
     · simp [updT_ne _ _ h]
-  have hds : ∀ key, droppedShard { st with rib := R, keys := K, queues := Q, threads := updT st.threads me t' } key
+  have hds : ∀ key, droppedShard { st with rib := R, keys := K, queues := Q, apq := AQ, threads := updT st.threads me t' } key
       ↔ droppedShard st key := by
     intro key; simp [droppedShard, (hth _).2.2.2.1]
   constructor <;> dsimp only
@@ -418,7 +421,7 @@ theorem step_commitIns {st st' : St} {me key a rest} (hI : Inv st)
   split at hs
   · -- prefix limit exceeded: nothing happens
     injection hs with hs; subst hs
-    exact inv_core (p := st.policy) (E := st.established) hI hme rfl rfl rfl
+    exact inv_core (p := st.policy) (E := st.established) (A := st.addpath) hI hme rfl rfl (fun r hr => ⟨r, hr, rfl, rfl⟩)
       (by unfold TWF; simpa [hheld, hfresh, hdrop] using hrest)
       (fun k hk => ⟨hI.heldlt me k hk, fun j hj hh => hj (hI.excl j me k hh hk)⟩)
       (hI.idsT me)
@@ -501,7 +504,7 @@ theorem view_remEvs {m key acc} :
 
 /-- shared by both branches of `commitRem`: the table afterwards has no entry for `key` and is
     otherwise unchanged -/
-theorem inv_rem {st : St} {me key} {t' : Thread} {R : Key → Option Entry} (hI : Inv st)
+theorem inv_rem {st : St} {me key} {t' : Thread} {R : Key → Option Entry} {AQ : Nat → List Bool} (hI : Inv st)
     (hme : me < st.nthreads)
     (hheld : (st.threads me).held = some key.shard) (hfresh : (st.threads me).fresh = true)
     (hsu : t'.subs = (st.threads me).subs) (hh : t'.held = (st.threads me).held)
@@ -511,7 +514,7 @@ theorem inv_rem {st : St} {me key} {t' : Thread} {R : Key → Option Entry} (hI 
     (hwf : TWF st.n me t')
     (hR : ∀ k', R k' = if k' = key then none else st.rib k') :
     Inv { st with rib := R, queues := send st.queues (st.threads me).subs [Ev.pre key none, Ev.post key none],
-                  threads := updT st.threads me t' } := by
+                  apq := AQ, threads := updT st.threads me t' } := by
   refine inv_data hI _ _ _ hme hsu hh hf hd hsn hms hwf (fun s e h => send_mono h) ?_ ?_ ?_ ?_ ?_ ?_
   · intro k' e he
     rw [hR] at he
@@ -728,7 +731,7 @@ theorem step_yld {st st' : St} {me y rest} (hI : Inv st)
   simp only [step, hp] at hs
   injection hs with hs; subst hs
   cases y <;>
-    exact inv_core (p := st.policy) (E := st.established) hI hme rfl rfl rfl (by unfold TWF; simpa using hrest)
+    exact inv_core (p := st.policy) (E := st.established) (A := st.addpath) hI hme rfl rfl (fun r hr => ⟨r, hr, rfl, rfl⟩) (by unfold TWF; simpa using hrest)
       (keepCore hI).1 (hI.idsT me) (keepCore hI).2
 
 theorem step_loadPol {st st' : St} {me rest} (hI : Inv st)
@@ -739,7 +742,7 @@ theorem step_loadPol {st st' : St} {me rest} (hI : Inv st)
   simp only [wfp] at hw
   simp only [step, hp] at hs
   injection hs with hs; subst hs
-  exact inv_core (p := st.policy) (E := st.established) hI hme rfl rfl rfl (by unfold TWF; simpa using hw)
+  exact inv_core (p := st.policy) (E := st.established) (A := st.addpath) hI hme rfl rfl (fun r hr => ⟨r, hr, rfl, rfl⟩) (by unfold TWF; simpa using hw)
     (keepCore hI).1 (hI.idsT me) (keepCore hI).2
 
 theorem step_setPol {st st' : St} {me p rest} (hI : Inv st)
@@ -750,7 +753,7 @@ theorem step_setPol {st st' : St} {me p rest} (hI : Inv st)
   simp only [wfp] at hw
   simp only [step, hp] at hs
   injection hs with hs; subst hs
-  exact inv_core (p := p) (E := st.established) hI hme rfl rfl rfl (by unfold TWF; simpa using hw)
+  exact inv_core (p := p) (E := st.established) (A := st.addpath) hI hme rfl rfl (fun r hr => ⟨r, hr, rfl, rfl⟩) (by unfold TWF; simpa using hw)
     (keepCore hI).1 (hI.idsT me) (keepCore hI).2
 
 theorem step_setEst {st st' : St} {me b rest} (hI : Inv st)
@@ -761,8 +764,46 @@ theorem step_setEst {st st' : St} {me b rest} (hI : Inv st)
   simp only [wfp] at hw
   simp only [step, hp] at hs
   injection hs with hs; subst hs
-  exact inv_core (p := st.policy) hI hme rfl rfl rfl (by unfold TWF; simpa using hw)
+  exact inv_core (p := st.policy) (A := st.addpath) hI hme rfl rfl (fun r hr => ⟨r, hr, rfl, rfl⟩) (by unfold TWF; simpa using hw)
     (keepCore hI).1 (hI.idsT me) (keepCore hI).2
+
+theorem mem_setLast {l : List SubRec} {f : SubRec → SubRec} {r : SubRec} (h : r ∈ setLast l f) :
+    ∃ r0 ∈ l, r = r0 ∨ r = f r0 := by
+  unfold setLast at h
+  cases hl : l.reverse with
+  | nil => simp [hl] at h
+  | cons x rest =>
+    simp only [hl, List.mem_reverse, List.mem_cons] at h
+    have hx : x ∈ l := List.mem_reverse.mp (by rw [hl]; simp)
+    rcases h with h | h
+    · exact ⟨x, hx, Or.inr h⟩
+    · exact ⟨r, List.mem_reverse.mp (by rw [hl]; simp [h]), Or.inl rfl⟩
+
+theorem step_regShard {st st' : St} {me k rest} (hI : Inv st)
+    (hp : (st.threads me).pgm = .regShard k :: rest) (hs : step me st = some st') : Inv st' := by
+  have hme := me_lt hI hp
+  have hw := hI.wf me
+  unfold TWF at hw; rw [hp] at hw
+  simp only [wfp, Bool.and_eq_true, decide_eq_true_eq] at hw
+  simp only [step, hp] at hs
+  injection hs with hs; subst hs
+  exact inv_core (p := st.policy) (E := st.established) hI hme rfl rfl (fun r hr => ⟨r, hr, rfl, rfl⟩)
+    (by unfold TWF; simpa using hw.2) (keepCore hI).1 (hI.idsT me) (keepCore hI).2
+
+theorem step_captureE0 {st st' : St} {me rest} (hI : Inv st)
+    (hp : (st.threads me).pgm = .captureE0 :: rest) (hs : step me st = some st') : Inv st' := by
+  have hme := me_lt hI hp
+  have hw := hI.wf me
+  unfold TWF at hw; rw [hp] at hw
+  simp only [wfp, Bool.and_eq_true] at hw
+  simp only [step, hp] at hs
+  injection hs with hs; subst hs
+  refine inv_core (p := st.policy) (E := st.established) (A := st.addpath) hI hme rfl rfl ?_
+    (by unfold TWF; simpa using hw.2) (keepCore hI).1 (hI.idsT me) (keepCore hI).2
+  intro r' hr'
+  obtain ⟨r0, hr0, hrr⟩ := mem_setLast hr'
+  refine ⟨r0, hr0, ?_⟩
+  rcases hrr with rfl | rfl <;> exact ⟨rfl, rfl⟩
 
 theorem step_ret {st st' : St} {me rest} (hI : Inv st)
     (hp : (st.threads me).pgm = .ret :: rest) (hs : step me st = some st') : Inv st' := by
@@ -772,7 +813,7 @@ theorem step_ret {st st' : St} {me rest} (hI : Inv st)
   simp only [wfp] at hw
   simp only [step, hp] at hs
   injection hs with hs; subst hs
-  exact inv_core (p := st.policy) (E := st.established) hI hme rfl rfl rfl (by unfold TWF; simpa using hw)
+  exact inv_core (p := st.policy) (E := st.established) (A := st.addpath) hI hme rfl rfl (fun r hr => ⟨r, hr, rfl, rfl⟩) (by unfold TWF; simpa using hw)
     (keepCore hI).1 (hI.idsT me) (keepCore hI).2
 
 theorem step_acquire {st st' : St} {me k rest} (hI : Inv st)
@@ -786,7 +827,7 @@ theorem step_acquire {st st' : St} {me k rest} (hI : Inv st)
   split at hs
   · rename_i hfree
     injection hs with hs; subst hs
-    refine inv_core (p := st.policy) (E := st.established) hI hme rfl rfl rfl (by unfold TWF; simpa using hrest) ?_ (hI.idsT me) ?_
+    refine inv_core (p := st.policy) (E := st.established) (A := st.addpath) hI hme rfl rfl (fun r hr => ⟨r, hr, rfl, rfl⟩) (by unfold TWF; simpa using hrest) ?_ (hI.idsT me) ?_
     · intro k' hk'
       simp at hk'; subst hk'
       exact ⟨hk, lockFree_spec hI hfree⟩
@@ -802,7 +843,7 @@ theorem step_release {st st' : St} {me k rest} (hI : Inv st)
   obtain ⟨_, hrest⟩ := hw
   simp only [step, hp] at hs
   injection hs with hs; subst hs
-  refine inv_core (p := st.policy) (E := st.established) hI hme rfl rfl rfl (by unfold TWF; simpa using hrest) ?_ (hI.idsT me) ?_
+  refine inv_core (p := st.policy) (E := st.established) (A := st.addpath) hI hme rfl rfl (fun r hr => ⟨r, hr, rfl, rfl⟩) (by unfold TWF; simpa using hrest) ?_ (hI.idsT me) ?_
   · intro k' hk'; simp at hk'
   · intro s k' hk'; simp at hk'
 
@@ -814,7 +855,7 @@ theorem step_loadSubs {st st' : St} {me rest} (hI : Inv st)
   simp only [wfp] at hw
   simp only [step, hp] at hs
   injection hs with hs; subst hs
-  refine inv_core (p := st.policy) (E := st.established) hI hme rfl rfl rfl (by unfold TWF; simpa using hw)
+  refine inv_core (p := st.policy) (E := st.established) (A := st.addpath) hI hme rfl rfl (fun r hr => ⟨r, hr, rfl, rfl⟩) (by unfold TWF; simpa using hw)
     (keepCore hI).1 (fun s hs => hI.idsS s hs) ?_
   intro s k _ _ hs hns
   exact absurd hs hns
@@ -1160,18 +1201,6 @@ theorem step_register {st st' : St} {me w b rest} (hI : Inv st)
       · exact absurd h (touched_nil m key)
       · simp at h
 
-theorem mem_setLast {l : List SubRec} {f : SubRec → SubRec} {r : SubRec} (h : r ∈ setLast l f) :
-    ∃ r0 ∈ l, r = r0 ∨ r = f r0 := by
-  unfold setLast at h
-  cases hl : l.reverse with
-  | nil => simp [hl] at h
-  | cons x rest =>
-    simp only [hl, List.mem_reverse, List.mem_cons] at h
-    have hx : x ∈ l := List.mem_reverse.mp (by rw [hl]; simp)
-    rcases h with h | h
-    · exact ⟨x, hx, Or.inr h⟩
-    · exact ⟨r, List.mem_reverse.mp (by rw [hl]; simp [h]), Or.inl rfl⟩
-
 theorem step_sentinel {st st' : St} {me rest} (hI : Inv st)
     (hp : (st.threads me).pgm = .sentinel :: rest) (hs : step me st = some st') : Inv st' := by
   have hme := me_lt hI hp
@@ -1249,14 +1278,10 @@ theorem step_sentinel {st st' : St} {me rest} (hI : Inv st)
       · exact hI.comp s hs k hk
     · intro i r hr hwant
       by_cases h : i = me
-      · subst h; simp only [updT_self] at hr ⊢
-        obtain ⟨r0, hr0, hrr⟩ := mem_setLast hr
-        have hsw : r.sid = r0.sid ∧ r.want = r0.want := by
-          rcases hrr with rfl | rfl <;> exact ⟨rfl, rfl⟩
-        left
-        rcases hI.recs i r0 hr0 (hsw.2 ▸ hwant) with hc | ⟨l, hl⟩
-        · rw [hsw.1]; exact List.mem_cons_of_mem _ hc
-        · rw [hsn] at hl; simp at hl; rw [hsw.1, ← hl.1]; exact List.mem_cons_self
+      · subst h; simp at hr ⊢
+        rcases hI.recs i r hr hwant with hc | ⟨l, hl⟩
+        · exact Or.inr hc
+        · rw [hsn] at hl; simp at hl; exact Or.inl hl.1.symm
       · simp [updT_ne _ _ h] at hr ⊢
         rcases hI.recs i r hr hwant with hc | hl
         · exact Or.inl (Or.inr hc)
@@ -1571,7 +1596,7 @@ theorem step_unsubscribe {st st' : St} {me rest} (hI : Inv st)
   | none =>
     simp only [hm] at hs
     injection hs with hs; subst hs
-    exact inv_core (p := st.policy) (E := st.established) hI hme rfl rfl rfl (by unfold TWF; simpa [hsnap'] using hrest)
+    exact inv_core (p := st.policy) (E := st.established) (A := st.addpath) hI hme rfl rfl (fun r hr => ⟨r, hr, rfl, rfl⟩) (by unfold TWF; simpa [hsnap'] using hrest)
       (keepCore hI).1 (hI.idsT me) (keepCore hI).2
   | some p =>
     obtain ⟨s0, ms⟩ := p
@@ -1660,6 +1685,8 @@ theorem step_inv {st st' : St} {me : Nat} (hI : Inv st) (hs : step me st = some 
     | commitRem key => exact step_commitRem hI hp hs
     | commitSr k p => exact step_commitSr hI hp hs
     | setEst b => exact step_setEst hI hp hs
+    | regShard k => exact step_regShard hI hp hs
+    | captureE0 => exact step_captureE0 hI hp hs
     | commitStale k => exact absurd (hI.wf me) (by unfold TWF; rw [hp]; simp [wfp])
     | commitDropQuiet k => exact absurd (hI.wf me) (by unfold TWF; rw [hp]; simp [wfp])
     | commitPurge k => exact absurd (hI.wf me) (by unfold TWF; rw [hp]; simp [wfp])
